@@ -131,9 +131,12 @@ class Ctx:
             self.extra["nontrivial_count"] = self.extra.get("nontrivial_count", 0) + result["nontrivial_count"]
         for k, v in result.get("info", {}).items():
             cur = self.extra.setdefault("info", {}).get(k)
-            if isinstance(v, dict) and isinstance(cur, dict) and all(isinstance(x, (int, float)) for x in v.values()):
+            if isinstance(v, dict) and isinstance(cur, dict) and all(isinstance(x, (int, float, list)) for x in v.values()):
                 for kk, vv in v.items():
-                    cur[kk] = cur.get(kk, 0) + vv
+                    if isinstance(vv, list):
+                        cur[kk] = (cur.get(kk, []) + vv)[:6]
+                    else:
+                        cur[kk] = cur.get(kk, 0) + vv
             else:
                 self.extra["info"][k] = v
 
@@ -194,7 +197,11 @@ class Ctx:
             "wall_s": round(time.time() - self.t0, 2),
             "violations": len(new),
         }
-        with open(os.path.join(ROOT, "evidence", f"{self.pid}.json"), "w") as fh:
+        # evidence/<id>.json describes runs against /repo itself; a run against another tree (VERIF_REPO=<scratch worktree with a seeded
+        # change>) leaves it alone and writes under out/
+        evdir = os.path.join(ROOT, "evidence") if os.path.realpath(REPO) == "/repo" else os.path.join(ROOT, "out", "evidence-other-tree")
+        os.makedirs(evdir, exist_ok=True)
+        with open(os.path.join(evdir, f"{self.pid}.json"), "w") as fh:
             json.dump(ev, fh, indent=1, default=str)
         shutil.rmtree(self.scratch, ignore_errors=True)
         for ln in lines:
